@@ -80,8 +80,9 @@ Definition prog_dropped (cs : list pcase) : list Z := map fst (filter (fun r => 
 
 (** ---- the same cases against the reference semantics S ------------------------------------ *)
 
-Definition s_bootstrap_db : list sproc := Eval vm_compute in fst (s_consult false [] 1000 bootstrap_clauses).
-Definition s_program_db (dynamic : bool) (ts : list term) : list sproc := fst (s_consult dynamic s_bootstrap_db 5000 ts).
+Definition s_bootstrap_db : list sproc := Eval vm_compute in fst (s_consult false false [] 1000 bootstrap_clauses).
+Definition s_program_db_gen (split dynamic : bool) (ts : list term) : list sproc := fst (s_consult split dynamic s_bootstrap_db 5000 (rename_apart ts)).
+Definition s_program_db := s_program_db_gen false.
 
 Definition send_agree (m : sending) (o : oend) : bool :=
   match m, o with
@@ -91,13 +92,14 @@ Definition send_agree (m : sending) (o : oend) : bool :=
   | _, _ => false
   end.
 
-Definition spec_agree (fuel : nat) (db : list sproc) (q : term) (qvars : list Z) (limit : nat)
+Definition spec_agree_gen (split : bool) (fuel : nat) (db : list sproc) (q : term) (qvars : list Z) (limit : nat)
                       (oans : list (list term)) (oe : oend) : Z :=
-  let '(ans, e) := s_run fuel db QBASE q qvars limit in
+  let '(ans, e) := s_run_gen split fuel db QBASE q qvars limit in
   match e with
   | SEndFuel => 2
   | _ => if list_eqb (list_eqb term_eqb) (map canon_answer ans) (map canon_answer oans) && send_agree e oe then 0 else 1
   end.
+Definition spec_agree := spec_agree_gen false.
 
 (** per case: (id, model verdict, spec verdict) for every case where either is not 0 *)
 Definition check_both (dynamic : bool) (cs : list pcase) : list (Z * Z * Z) :=
@@ -105,5 +107,14 @@ Definition check_both (dynamic : bool) (cs : list pcase) : list (Z * Z * Z) :=
     (map (fun c => match c with
                    | (id, prog, q, qvars, limit, oans, oe) =>
                        (id, run_agree MFUEL (if dynamic then dynamic_db prog else program_db prog) q qvars limit oans oe,
-                            spec_agree MFUEL (s_program_db dynamic prog) q qvars limit oans oe)
+                            (* 0: agrees with the reference semantics; 3: disagrees with it but agrees with the
+                               reference semantics under this implementation's storage convention for top-level
+                               disjunctive bodies (recorded deviation F3a); 1: disagrees with both *)
+                            match spec_agree MFUEL (s_program_db dynamic prog) q qvars limit oans oe with
+                            | 1 => match spec_agree_gen true MFUEL (s_program_db_gen true dynamic prog) q qvars limit oans oe with
+                                   | 0 => 3
+                                   | _ => 1
+                                   end
+                            | r => r
+                            end)
                    end) cs).
